@@ -8,6 +8,7 @@ import (
 	"bytes"
 	"encoding/json"
 	"fmt"
+	"io"
 	"strings"
 	"testing"
 
@@ -34,6 +35,10 @@ type op struct {
 type history struct {
 	Start *gen.GraphBP `json:"start"`
 	Ops   []op         `json:"ops"`
+	// Background: while the history runs, another goroutine is in the middle of decoding an
+	// unrelated stream (it has read two lines and waits for more). What happens to another
+	// document in another goroutine is not part of this document's history.
+	Background bool `json:"background,omitempty"`
 }
 
 var editKinds = []string{"AddNode", "DeleteNode", "SetNodes", "AddIndividual", "AddFamily", "AddFamilyWithHusbandAndWife",
@@ -547,6 +552,21 @@ func check(h history) (fl *harness.Failure, res result) {
 	if err != nil {
 		return harness.Failf("generator-text-rejected", "%v", err), res
 	}
+	if h.Background {
+		pr, pw := io.Pipe()
+		done := make(chan struct{})
+		go func() {
+			defer close(done)
+			defer func() { _ = recover() }()
+			_, _ = gedcom.NewDecoder(pr).Decode()
+		}()
+		// (a pipe hands bytes over synchronously: when Write returns the decoder has them)
+		_, _ = pw.Write([]byte("0 HEAD\n1 CHAR UTF-8\n0 @X1@ INDI\n"))
+		defer func() {
+			_ = pw.Close()
+			<-done
+		}()
+	}
 	var pointers []string
 	for _, p := range h.Start.People {
 		pointers = append(pointers, p.ID)
@@ -669,7 +689,7 @@ func genOp(t *rapid.T) op {
 
 func TestCheckHistories(t *testing.T) {
 	s := harness.NewSub("random-histories",
-		"operation lists of 1..25 steps over a random referentially closed family graph (<= 5 people, <= 3 families, decoded from text): 21 edit operations (AddNode/DeleteNode/SetNodes on arbitrary nodes, AddIndividual, AddFamily, AddFamilyWithHusbandAndWife, SetHusband/SetWife incl. nil, SetHusbandPointer/SetWifePointer, AddChild, Document.DeleteNode/AddNode, AddName/Add*Date/SetSex), 5 read operations that warm caches, 10 read-only operations (Warnings, String, Compare, SurroundingSimilarity, Similarity, CompareNodes+Sort, DeepCopy and every filter of the library - directly and through FilterFlags - into another document, in-memory publish, queries); a third of the start documents hold somebody with the same NAME twice; after every edit and read-only step all views (NodesWithTag for every node x 11 tags, Individuals, Families, NodeByPointer for every pointer ever seen, per individual Names/Sex/Births/Baptisms/Deaths/Burials/AllEvents/UniqueIdentifiers/Families/Spouses/Parents/Children/String, per family Husband/Wife/their individuals/Children/the individuals and parents of the children/String) are compared with a fresh decode of Document.String(); read-only steps must leave the text unchanged; non-trivial = an edit that follows a read of the views")
+		"operation lists of 1..25 steps over a random referentially closed family graph (<= 5 people, <= 3 families, decoded from text): 21 edit operations (AddNode/DeleteNode/SetNodes on arbitrary nodes, AddIndividual, AddFamily, AddFamilyWithHusbandAndWife, SetHusband/SetWife incl. nil, SetHusbandPointer/SetWifePointer, AddChild, Document.DeleteNode/AddNode, AddName/Add*Date/SetSex), 5 read operations that warm caches, 10 read-only operations (Warnings, String, Compare, SurroundingSimilarity, Similarity, CompareNodes+Sort, DeepCopy and every filter of the library - directly and through FilterFlags - into another document, in-memory publish, queries); a third of the start documents hold somebody with the same NAME twice; during a fifth of the histories another goroutine is in the middle of decoding an unrelated stream; after every edit and read-only step all views (NodesWithTag for every node x 11 tags, Individuals, Families, NodeByPointer for every pointer ever seen, per individual Names/Sex/Births/Baptisms/Deaths/Burials/AllEvents/UniqueIdentifiers/Families/Spouses/Parents/Children/String, per family Husband/Wife/their individuals/Children/the individuals and parents of the children/String) are compared with a fresh decode of Document.String(); read-only steps must leave the text unchanged; non-trivial = an edit that follows a read of the views")
 	s.Rapid(t, harness.Share(harness.Pick(12000, 300000)), 130, func(rt *rapid.T) {
 		h := history{Start: gen.Graph(gen.GraphOpts{MaxPeople: 5, MaxFamilies: 3, UIDs: true, Sources: true}).Draw(rt, "start")}
 		if len(h.Start.People) > 0 && rapid.IntRange(0, 2).Draw(rt, "duplicateName") == 0 {
@@ -683,6 +703,7 @@ func TestCheckHistories(t *testing.T) {
 		for i := 0; i < n; i++ {
 			h.Ops = append(h.Ops, genOp(rt))
 		}
+		h.Background = rapid.IntRange(0, 4).Draw(rt, "background") == 2
 		s.Crumb(h) // read-only operations start goroutines inside the library: a panic there kills the process
 		fl, res := check(h)
 		s.Eval(harness.JSON(h), res.editAfterRead, dedupe(res.classes)...)
